@@ -418,7 +418,7 @@ pub fn shrink_case(mut case: Case, mut fail: Fail, check: &(dyn Fn(&Case, &mut L
     let mut l = Local::default();
     let t0 = Instant::now();
     let still = |c: &Case, l: &mut Local, sig: &str| -> Option<Fail> {
-        let r = std::panic::catch_unwind(std::panic::AssertUnwindSafe(|| check(c, l)));
+        let r = crate::run::quietly(|| check(c, l));
         match r {
             Ok(Err(f)) if f.sig == sig => Some(f),
             _ => None,
